@@ -173,6 +173,30 @@ func (p *Proc) evalCall(ec *ectx, call *ast.CallExpr) Val {
 			recv = &r
 		}
 		args := p.evalArgs(ec, fn.Type().(*types.Signature), call)
+		// pointer-receiver method on an addressable value (x.M() means (&x).M()): the value is
+		// put into a temporary cell, the call gets its address, and the cell is read back
+		if recv != nil {
+			if rs := fn.Type().(*types.Signature).Recv(); rs != nil && isPointer(rs.Type()) && !isPointer(recv.Typ) && !isIface(recv.Typ) && !isSyncType(recv.Typ) && !opaqueStruct(recv.Typ) {
+				addr := p.alloc(ec.st, "tmpaddr")
+				p.storeCell(ec, recv.Typ, addr, *recv)
+				ptr := Val{T: addr, Typ: types.NewPointer(recv.Typ)}
+				res := p.callFunc(ec, fn, &ptr, args, call)
+				if !p.dead(ec.st) {
+					nv := p.loadCell(ec, recv.Typ, addr)
+					func() {
+						defer func() {
+							if r := recover(); r != nil {
+								if _, ok := r.(verr); !ok {
+									panic(r)
+								}
+							}
+						}()
+						p.assignTo(ec, recvExpr, nv)
+					}()
+				}
+				return res
+			}
+		}
 		return p.callFunc(ec, fn, recv, args, call)
 	}
 	// dynamic call of a function value
@@ -979,6 +1003,11 @@ func (p *Proc) havocPointee(st *State, ptr Val) {
 			v := Val{T: p.freshConst("dec_"+f.Name(), p.ctx.sortOf(f.Type())), Typ: f.Type()}
 			p.wfAssume(st, v)
 			p.decodedFresh(st, v)
+			if nt, ok := f.Type().(*types.Named); ok && nt.Obj().Name() == "RawMessage" && nt.Obj().Pkg() != nil && nt.Obj().Pkg().Path() == "encoding/json" {
+				// a decoded raw message is absent (nil) or a complete, non-empty JSON value
+				st.assume(Or(Eq(SlArr(v.T), IntLit(0)), Gt(SlLen(v.T), IntLit(0))))
+				p.ctx.notes["trusted contract: encoding/json.Unmarshal stores nil or a non-empty value into json.RawMessage fields"] = true
+			}
 			p.heapSet(st, key, Store(h, ptr.T, v.T))
 		}
 		return
